@@ -2707,6 +2707,9 @@ func (s *Server) serveConnCounted(c net.Conn, countConcurrency bool) error {
 				bw = acquireWriter(ctx)
 			}
 			if err = writeResponse(ctx, bw); err != nil {
+				// Complete responses to earlier pipelined requests may still
+				// sit in the write buffer: don't drop them with this one.
+				_ = bw.Flush()
 				break
 			}
 
